@@ -96,7 +96,7 @@ prop('C12', level='proof',
      technique='woven accessor assertions under CBMC monitor models + goto-cc symbol-table scan', design_ref='§4 C12, §9',
      undecided=['heap objects handed between threads (ownership transfer through the queues)', 'libc internals', 'eof in expand.c'])
 prop('C14', level='proof',
-     text='Lemma harnesses prove for every bit history that mini_dfa implements the longest-border (KMP) automaton of the literal pattern 0x314159265359 and that big_dfa is its 8-step composition with absorbing ACCEPT (all 49x256 entries); the scan() routine is checked against a naive matcher on windows of 84-127 symbolic bits with symbolic skip (bounded), including that backtracking into a word always ends in that word.',
+     text='Lemma harnesses prove for every bit history that mini_dfa implements the longest-border (KMP) automaton of the literal pattern 0x314159265359 and that big_dfa is its 8-step composition with absorbing ACCEPT (all 49x256 entries); the scan() routine is checked against a naive matcher on windows of 84-127 symbolic bits (buffered bits + two input words) with symbolic skip (bounded), including that backtracking into a word always ends in that word.',
      note=PCHAIN + 'the induction over bit histories that lifts the step lemma to all streams is a '
           'paper argument; scan() word loop only bounded (its loop shares a cycle with goto again, CBMC loop contracts cannot attach).',
      technique='CBMC lemma harnesses over scantab.h (exhaustive) + bounded check of scan() against a naive matcher',
@@ -221,7 +221,8 @@ def all_obligations():
          expect=['bits_need: the word is appended big-endian', 'bits_dump: removes exactly'], replayable=True))
 
     # ---------------- parse.c scan(): bounded window against a naive matcher (C14 O14.3)
-    for live, words, tier in ((20, 2, 'quick'), (5, 3, 'thorough'), (63, 2, 'thorough'), (0, 3, 'thorough')):
+    # (three-word windows: the candidate-found paths are cut by the unwinding bound of the goto-again cycle for every bound tried up to 6 -> vacuous, not used)
+    for live, words, tier in ((20, 2, 'quick'), (63, 2, 'thorough'), (41, 2, 'thorough'), (32, 2, 'thorough')):
         A(Ob(name=f'parse.scan.L{live}W{words}', props=['C14'] + (['C10', 'C08'] if tier == 'thorough' else []), kind='bounded', harness='h_parse.c', entry='h_scan', tier=tier, solver='cadical',
              defines={'SCAN_LIVE': str(live), 'SCAN_WORDS': str(words)}, timeout=2400,
              bound=f'{live} buffered bits + {words} input words, every bit symbolic; skip distance symbolic (0..{live + 32 * words + 40})',
